@@ -1154,8 +1154,107 @@ pub(crate) fn m_link_min_width() {
     }
 }
 
+
+/// The element-name dispatch of process_dom_node: every element with an arm of its own is converted to the node
+/// kind the documentation of the render tree says, everything else is a transparent container.  Also validates
+/// the atom encoding the solver-side table relies on.  atom == 0: all names (self test).
+pub(crate) fn m_element_dispatch() {
+    let atom: u64 = kani::any();
+    // name -> (document, expectation)
+    enum Want { Parent(&'static str), Has(&'static str), Absent, Same(&'static str), Table }
+    use Want::*;
+    let table: Vec<(&str, String, Want)> = vec![
+        ("html", "<html><body>zzq</body></html>".into(), Parent("Container(")),
+        ("body", "<html><body>zzq</body></html>".into(), Parent("Container(")),
+        ("head", "<html><head><title>zzq</title></head><body>x</body></html>".into(), Absent),
+        ("script", "<div><script>zzq</script>x</div>".into(), Absent),
+        ("style", "<div><style>zzq</style>x</div>".into(), Absent),
+        ("link", "<div>zzq<link></div>".into(), Same("<div>zzq</div>")),
+        ("meta", "<div>zzq<meta></div>".into(), Same("<div>zzq</div>")),
+        ("hr", "<div>zzq<hr></div>".into(), Same("<div>zzq</div>")),
+        ("img", "<div>zzq<img></div>".into(), Same("<div>zzq</div>")),
+        ("span", "<div><span>zzq</span></div>".into(), Parent("Container(")),
+        ("a", "<div><a>zzq</a></div>".into(), Parent("Container(")),
+        ("em", "<div><em>zzq</em></div>".into(), Parent("Em(")),
+        ("i", "<div><i>zzq</i></div>".into(), Parent("Em(")),
+        ("ins", "<div><ins>zzq</ins></div>".into(), Parent("Em(")),
+        ("strong", "<div><strong>zzq</strong></div>".into(), Parent("Strong(")),
+        ("s", "<div><s>zzq</s></div>".into(), Parent("Strikeout(")),
+        ("del", "<div><del>zzq</del></div>".into(), Parent("Strikeout(")),
+        ("code", "<div><code>zzq</code></div>".into(), Parent("Code(")),
+        ("h1", "<h1>zzq</h1>".into(), Parent("Header(1, ")), ("h2", "<h2>zzq</h2>".into(), Parent("Header(2, ")),
+        ("h3", "<h3>zzq</h3>".into(), Parent("Header(3, ")), ("h4", "<h4>zzq</h4>".into(), Parent("Header(4, ")),
+        ("h5", "<h5>zzq</h5>".into(), Parent("Header(5, ")), ("h6", "<h6>zzq</h6>".into(), Parent("Header(6, ")),
+        ("p", "<p>zzq</p>".into(), Parent("Block(")),
+        ("pre", "<pre>zzq</pre>".into(), Parent("Block(")),
+        ("li", "<ul><li>zzq</li></ul>".into(), Parent("ListItem(")),
+        ("sup", "<div><sup>zzq</sup></div>".into(), Parent("Sup(")),
+        ("div", "<div>zzq</div>".into(), Parent("Div(")),
+        ("br", "<div>zzq<br>x</div>".into(), Has("Break")),
+        ("table", "<table><tr><td>zzq</td></tr></table>".into(), Table),
+        ("thead", "<table><thead><tr><td>zzq</td></tr></thead></table>".into(), Table),
+        ("tbody", "<table><tbody><tr><td>zzq</td></tr></tbody></table>".into(), Table),
+        ("tfoot", "<table><tfoot><tr><td>zzq</td></tr></tfoot></table>".into(), Table),
+        ("tr", "<table><tr><td>zzq</td></tr></table>".into(), Table),
+        ("td", "<table><tr><td>zzq</td></tr></table>".into(), Table),
+        ("th", "<table><tr><th>zzq</th></tr></table>".into(), Table),
+        ("ul", "<ul><li>zzq</li></ul>".into(), Has("Ul(")),
+        ("ol", "<ol><li>zzq</li></ol>".into(), Has("Ol(")),
+        ("dl", "<dl><dt>zzq</dt></dl>".into(), Has("Dl(")),
+        ("dt", "<dl><dt>zzq</dt></dl>".into(), Parent("Dt(")),
+        ("dd", "<dl><dd>zzq</dd></dl>".into(), Parent("Dd(")),
+        ("b", "<div><b>zzq</b></div>".into(), Parent("Container(")),
+        ("u", "<div><u>zzq</u></div>".into(), Parent("Container(")),
+        ("font", "<div><font>zzq</font></div>".into(), Parent("Container(")),
+        ("center", "<center>zzq</center>".into(), Parent("Container(")),
+        ("section", "<section>zzq</section>".into(), Parent("Container(")),
+        ("caption", "<table><caption>zzq</caption><tr><td>x</td></tr></table>".into(), Parent("Container(")),
+        ("label", "<div><label>zzq</label></div>".into(), Parent("Container(")),
+        ("small", "<div><small>zzq</small></div>".into(), Parent("Container(")),
+        ("q", "<div><q>zzq</q></div>".into(), Parent("Container(")),
+    ];
+    assert!(html5ever::ns!(html).unsafe_data() == 2, "the XHTML namespace atom is not static atom 0");
+    let tokens = ["Container(", "Link(", "Em(", "Strong(", "Strikeout(", "Code(", "Block(", "Header(", "Div(", "BlockQuote(",
+                  "Ul(", "Ol(", "Dl(", "Dt(", "Dd(", "ListItem(", "Sup(", "TableCell(", "TableBody(", "TableRow(", "Table(", "RenderTableCell {"];
+    let tree_of = |html: &str| -> String {
+        let cfg = crate::config::plain();
+        let dom = cfg.parse_html(html.as_bytes()).expect("parses");
+        let tree = cfg.dom_to_render_tree(&dom).expect("tree");
+        format!("{:?}", tree)
+    };
+    let mut checked = 0;
+    for (name, html, want) in table.iter() {
+        let packed = html5ever::LocalName::from(*name).unsafe_data();
+        let mut enc: u64 = 1 | ((name.len() as u64) << 4);
+        for (i, b) in name.bytes().enumerate() { enc |= (b as u64) << (8 * (i + 1)); }
+        assert!(packed == enc, "<{}> is not packed as an inline atom ({:#x} vs {:#x})", name, packed, enc);
+        if atom != 0 && atom != enc { continue; }
+        checked += 1;
+        let dbg = tree_of(html);
+        match want {
+            Absent => assert!(!dbg.contains("zzq"), "<{}>: its content is in the render tree", name),
+            Same(other) => assert!(dbg == tree_of(other), "<{}> contributes to the render tree", name),
+            Has(tok) => assert!(dbg.contains(tok) && dbg.contains("zzq"), "<{}>: no {} node", name, tok),
+            Parent(tok) => {
+                let idx = dbg.find("zzq").unwrap_or_else(|| panic!("<{}>: text lost", name));
+                let pre = &dbg[..idx];
+                let last = tokens.iter().filter_map(|t| pre.rfind(t).map(|p| (p, *t))).max().map(|(p, _)| &pre[p..]).unwrap_or("");
+                assert!(last.starts_with(tok), "<{}>: its text is a child of `{}`, not of {}", name, &last[..last.len().min(24)], tok);
+            }
+            Table => {
+                let idx = dbg.find("zzq").unwrap_or_else(|| panic!("<{}>: text lost", name));
+                let pre = &dbg[..idx];
+                let last = tokens.iter().filter_map(|t| pre.rfind(t).map(|p| (p, *t))).max().map(|(_, t)| t).unwrap_or("");
+                assert!(pre.contains("Table(") && last == "RenderTableCell {", "<{}>: the cell is not part of the table", name);
+                assert!(!dbg.contains("TableRow(") && !dbg.contains("TableBody(") && !dbg.contains("TableCell("), "<{}>: a table part stays outside the table", name);
+            }
+        }
+    }
+    assert!(checked > 0, "atom {:#x} names no element of the table", atom);
+}
+
 crate::verif_common::registry! {
-    m_link_min_width, m_table_sections, m_table_caption, m_inline_tags, m_colspan_huge, m_frag_in_word, m_ol_prefix_width, m_dom_reuse, m_columns, m_prefix_blank_lines, m_shallow_empty, m_link_footnotes, m_strike_affix, m_frag_nested, m_dom_children, m_cell_unwind, m_routes_width, m_insert_child, m_ol_numbering, m_prefix_width, m_into_cells, m_table_col_width, m_table_alloc,
+    m_element_dispatch, m_link_min_width, m_table_sections, m_table_caption, m_inline_tags, m_colspan_huge, m_frag_in_word, m_ol_prefix_width, m_dom_reuse, m_columns, m_prefix_blank_lines, m_shallow_empty, m_link_footnotes, m_strike_affix, m_frag_nested, m_dom_children, m_cell_unwind, m_routes_width, m_insert_child, m_ol_numbering, m_prefix_width, m_into_cells, m_table_col_width, m_table_alloc,
     r1_cascade_pairs, r1_cascade_triples, r2_specificity_order, r2_specificity_add,
     r3_ol_prefix_total, r4_ol_prefix_is_max,
     r9_tree_map_reduce_order, r12_config_plumbing, r12_width_zero,
